@@ -379,10 +379,10 @@ impl Check for C09 {
             _ => g.urange(1, 4),
         };
         if g.chance(1, 12) {
-            return Sc::SetPop { n: g.urange(0, 9), steps: g.urange(1, 4), modulus: *g.pick(&[1u64, 2, 3, 1000]), threads };
+            return Sc::SetPop { n: if g.chance(1, 30) { g.log_uniform(10, 400) } else { g.urange(0, 9) }, steps: g.urange(1, 4), modulus: *g.pick(&[1u64, 2, 3, 1000]), threads };
         }
         if g.chance(1, 5) {
-            let n = g.urange(0, 8);
+            let n = if g.chance(1, 30) { g.log_uniform(9, 300) } else { g.urange(0, 8) };
             return Sc::Pipeline {
                 n,
                 bits: g.urange(0, 12),
@@ -397,6 +397,7 @@ impl Check for C09 {
             // occasionally a large population (per-child state indexed by position, word-sized
             // masks and the like only go wrong beyond 32 / 64 children)
             10 => *g.pick(&[33usize, 64, 65, 66, 100, 130]),
+            11 if g.chance(1, 4) => g.log_uniform(9, 3000),
             _ => g.urange(0, 8),
         };
         let plan = |g: &mut Xo, k: u64| -> Vec<usize> {
